@@ -58,8 +58,11 @@ def main():
             evp = os.path.join(VERIF, "evidence", c + ".json")
             if os.path.exists(evp):
                 ev_backup[evp] = open(evp).read()
+        # private copy of the Lean project: regenerated tables of a mutant never touch /verif/lean
+        leancopy = wt + "_lean"
+        sh(["cp", "-a", os.path.join(VERIF, "lean"), leancopy])
         for c in checks:
-            envc = dict(os.environ, VERIF_REPO=wt)
+            envc = dict(os.environ, VERIF_REPO=wt, VERIF_LEAN=leancopy)
             rcc, oc = sh([os.path.join(VERIF, "check"), c, "--tier", tier], cwd=VERIF, env=envc, timeout=7200)
             lines = [l[:300] for l in oc.split("\n") if l.startswith(("VIOLATION", "MACHINERY", "KNOWN-FINDING"))]
             results[c] = {"rc": rcc, "lines": lines[:8]}
@@ -71,6 +74,7 @@ def main():
     finally:
         sh(["git", "-C", "/repo", "worktree", "remove", "--force", wt])
         shutil.rmtree(wt, ignore_errors=True)
+        shutil.rmtree(wt + "_lean", ignore_errors=True)
     os.makedirs(out, exist_ok=True)
     for f in ("patch.diff", "demo.py", "notes.md"):
         if os.path.exists(os.path.join(seed_dir, f)) and os.path.abspath(seed_dir) != os.path.abspath(out):
@@ -87,8 +91,6 @@ def main():
     meta["history"] = old.get("history", []) + [{"caught": meta.get("caught"), "checks": {k: v["rc"] for k, v in meta.get("check_results", {}).items()}}]
     json.dump(meta, open(os.path.join(out, "meta.json"), "w"), indent=1)
     print(json.dumps({k: meta[k] for k in meta if k not in ("needs_to_manifest", "demo_on_patched_output_tail")}, indent=1))
-    # leave Gen tables regenerated from /repo again
-    sh(["/venv/bin/python", "-m", "harness.extract"], cwd=VERIF)
     return 0
 
 
